@@ -14,7 +14,7 @@ ID = 'C08'
 LEVEL = 'exploration'
 RULE = ('bounded-operator formulas (one operator and 2-chains) x ALL equivalent spellings of their bounds: unit suffix in {none, s, ms, us, ns} on begin and '
         'on end independently (a missing suffix takes the other bound\'s unit, else the default unit), default unit spec.unit in {s, ms, us}, sampling period '
-        'in {1 s, 500 ms, 2 s, 250000 us; 100 ms, 0.1 s (a float), 300 us, 0.5 ms - the last four not exactly representable in binary or given as floats} with the bounds scaled to it and the time-stamps i*period rounded to floats; x discrete offline / online / pastified online x all traces up to length n; every '
+        'in {1 s, 500 ms, 2 s, 250000 us; 100 ms, 0.1 s (a float), 300 us, 0.5 ms - the last four not exactly representable in binary or given as floats} with the bounds scaled to it and the time-stamps i*period rounded to floats; float-period family: every period k/1000 s written as a float (k = 1..120, thorough 1..1000) must behave as k ms; x discrete offline / online / pastified online x all traces up to length n; every '
         'spelling must return the reference rho of the sample-count bounds (hence all spellings agree); bounds that are NOT a multiple of the period '
         '(every spelling again) must raise RTAMTException at parse() or at the first evaluation and nothing else; dense time: default unit x suffixes '
         'with time-stamps rescaled consistently, compared with the dense reference; life layer: discrete offline objects configured and used under one of 5 configurations and then '
@@ -112,6 +112,9 @@ def shards(tier):
         out.append({'mode': 'reject', 'pi': pi})
     for i in range(len(collision_cases())):
         out.append({'mode': 'collide', 'i': i})
+    kmax = 120 if tier == 'quick' else 1000
+    for k0 in range(1, kmax + 1, 20):
+        out.append({'mode': 'fper', 'ks': list(range(k0, min(k0 + 20, kmax + 1)))})
     for i in range(len(life_formulas())):
         out.append({'mode': 'life', 'life': i})
     return out
@@ -165,6 +168,44 @@ def run_collide(shard, tier, res, mod):
                 res.nontrivial += 1
             res.digest(text, kind, t, bool(msgs))
     res.sample({'same_digits_different_units': text}, 1)
+
+
+def run_fper(shard, tier, res, mod):
+    """the sampling period given as a FLOAT number of seconds, k/1000 for every k of the shard (0.001, 0.002, ... - most of them not
+    representable in binary): the monitor must behave exactly as with the period k ms"""
+    X, px = F.X, F.PX
+    fs = [('once', (0, 2), X), ('and', ('eventually', (1, 1), px), ('historically', (1, 2), X))]
+    traces = [F.trace_dict(t, ['x']) for t in F.traces(4, F.V3, 1)][::5]
+    for k in shard['ks']:
+        p = k / 1000.0
+        period_ns = k * U['ms']
+        for f in fs:
+            res.formulas += 1
+            for choice in ([0], [6 + 2], [2 * 5 + 2]):     # unit-less decimal seconds; begin in s, end in ms; both in ms
+                text = spell_formula(f, period_ns, 's', choice * 3)
+                for kind, pastify in (('dt_off', False), ('dt_on', True)):
+                    for w in traces:
+                        case = {'mode': 'dt', 'formula': F.to_json(f), 'spec': text, 'vars': ['x'], 'unit': 's', 'period': [p, 's'], 'kind': kind,
+                                'pastify': pastify, 'trace': w}
+                        res.evaluations += 1
+                        try:
+                            msgs = replay(case)
+                        except Exception as e:
+                            if not impl_frame(e):
+                                raise
+                            msgs = ['parse()/pastify() raised %s: %s' % (type(e).__name__, str(e)[:150])]
+                        if msgs:
+                            res.violation(mod, case, 'float period %r s: %s' % (p, msgs[0]))
+                            res.outcomes['float period differs'] += 1
+                        else:
+                            res.outcomes['agree'] += 1
+                            res.flags['float_period_cases'] += 1
+                        res.digest(text, k, kind, bool(msgs))
+    res.sample({'float_period_s': p, 'spec': text}, 1)
+
+
+def impl_frame(e):
+    return isinstance(e, impl.RTAMTException)
 
 
 def spell_formula(f, period_ns, du, choice):
@@ -428,7 +469,7 @@ def run_shard(shard, tier, res):
     mod = sys.modules[__name__]
     if shard['mode'] == 'life':
         return run_life(shard, tier, res, mod)
-    {'dt': run_dt, 'ct': run_ct, 'reject': run_reject, 'collide': run_collide}[shard['mode']](shard, tier, res, mod)
+    {'dt': run_dt, 'ct': run_ct, 'reject': run_reject, 'collide': run_collide, 'fper': run_fper}[shard['mode']](shard, tier, res, mod)
 
 
 def replay(case):
